@@ -32,6 +32,11 @@ def generate(rng, tier):
         for s in ("cat/" + "p" * L, "c" * L + "/pkg", "../../cat/" + "p" * L, "../../" + "c" * L + "/" + "p" * L, "c" * L + "/" + "p" * L + "/x"):
             cases.append(Case("path.new", [enc(s)], meta={"s": s}))
         cases.append(Case("dep.new", [enc("pkg-[0-9]*:../../cat/" + "p" * L)], meta={"s": "x:long"}))
+    # more than two leading '..' (4, 6, 8), '..' in other places, and both forms glued
+    for s in ["../../../../a/b", "../../../../../../a/b", "../../../../../../../../a/b", "../../../a/b", "../../../../../a/b", "../../a/b/../..", "../../a/../b", "../../../../a", "../../../..",
+              "../..//../../a/b", "../../a/b/c/d", "../../../../a/b/", "a/b/../../a/b", "../../ ../../a/b"]:
+        cases.append(Case("path.new", [enc(s)], meta={"s": s}))
+        cases.append(Case("dep.new", [enc("pkg-[0-9]*:" + s)], meta={"s": "x:" + s}))
     for s in ["../../.config/pkg", ".config/pkg", "../../..data/pkg", "../../.../pkg", ".../pkg", "../../cat/.pkg", "../../.a/.b", ".a/.b", "..a/b", "../../..a/b", "../.././a/b",
               "a/b\x00", "\x00/b", "a\n/b", "a/\u2028", "../../a\x7f/b", "\ufeffa/b"]:
         cases.append(Case("path.new", [enc(s)], meta={"s": s}))
